@@ -2,6 +2,7 @@ package props
 
 import (
 	"fmt"
+	"math"
 	"math/rand/v2"
 	"regexp"
 	"strings"
@@ -125,6 +126,10 @@ func c12Data(r *rand.Rand, depth int) ref.V {
 		return ref.Str(gen.Pick(r, []string{"", "a", "héllo", "日本語テキスト", "abcdef", "ab", "a😀b👍🏽c", "e\u0301e\u0301x", "😀", "\U0001F468\u200d\U0001F469\u200d\U0001F467",
 			"漢字かな交じり文のとても長い文字列、三十二文字を超える長さにするための追加のテキストです。", "ßüöä-" + strings.Repeat("é", 70), strings.Repeat("a", 40)}))
 	case k == 9:
+		if r.IntN(6) == 0 {
+			// integers outside the range a token may carry are ordinary data to a selector
+			return ref.Int(gen.Pick(r, []int64{1 << 53, -(1 << 53), 1<<53 + 1, math.MaxInt64, math.MinInt64, 1 << 62}))
+		}
 		return ref.Int(gen.Int(r))
 	case k == 10:
 		return ref.Null()
